@@ -218,7 +218,7 @@ extern "C" int LLVMFuzzerTestOneInput(const uint8_t *data, size_t size) {
 void showValue(const Case &c, std::ostream &os) { os << ser(c).substr(0, 700); }
 
 static rc::Gen<int> genNoteOffset() {
-    return rc::gen::oneOf(rc::gen::element(-32768, -32767, -12291, -12290, -12000, -6000, -129, -128, -127, -1, 0, 1, 12, 127, 128, 255, 6000, 12000, 12288, 12289, 12290, 12291, 20000, 32766, 32767),
+    return rc::gen::oneOf(rc::gen::element(-32768, -32767, -12291, -12290, -12000, -6000, -129, -128, -127, -1, 0, 1, 12, 127, 128, 255, 6000, 12000, 12100, 12150, 12180, 12200, 12230, 12260, 12288, 12289, 12290, 12291, 20000, 32766, 32767),
                           rng<int>(-32768, 32767), rng<int>(-200, 200));
 }
 static rc::Gen<int> genByte() { return rc::gen::oneOf(rc::gen::element(0, 1, 7, 8, 15, 16, 31, 63, 64, 127, 128, 129, 200, 254, 255), rng<int>(0, 255)); }
